@@ -2,6 +2,7 @@ package main
 
 import (
 	"bufio"
+	"syscall"
 
 	"github.com/zalf-rpm/Hermes2Go/hermes"
 
@@ -165,15 +166,18 @@ func findUnstableScenario(tagProp string, seed uint64, idx int) *Scenario {
 }
 
 type batchRunResult struct {
-	ExitCode    int
-	TimedOut    bool
-	Stdout      string
-	Dispatched  []int
-	Errors      map[int]string // log id -> error text from the error summary
-	NumErrors   int
-	Trace       []traceEv
-	RaceReports []string
-	WallMS      int64
+	ExitCode int
+	TimedOut bool
+	// QuitAfterAllRunsEnded: the trace shows a run_end for every line of the batch, yet the process was still alive 30 s
+	// later and was sent SIGQUIT; Stdout then holds the goroutine dump (see deadlocked)
+	QuitAfterAllRunsEnded bool
+	Stdout                string
+	Dispatched            []int
+	Errors                map[int]string // log id -> error text from the error summary
+	NumErrors             int
+	Trace                 []traceEv
+	RaceReports           []string
+	WallMS                int64
 }
 
 type traceEv struct {
@@ -196,8 +200,8 @@ func runBatch(bin, workDir, batchFile string, sch schedule, scratch string, tag 
 	tracePath := filepath.Join(scratch, "trace_"+tag+".jsonl")
 	racePrefix := filepath.Join(scratch, "race_"+tag)
 	os.Remove(tracePath)
-	args := []string{"-s", "QUIT", strconv.Itoa(timeoutSec), bin, "-module", "batch", "-concurrent", strconv.Itoa(sch.Concurrent), "-logoutput", "-workingdir", workDir, "-batch", batchFile}
-	cmd := exec.Command("timeout", args...)
+	args := []string{"-module", "batch", "-concurrent", strconv.Itoa(sch.Concurrent), "-logoutput", "-workingdir", workDir, "-batch", batchFile}
+	cmd := exec.Command(bin, args...)
 	cmd.Dir = scratch
 	env := os.Environ()
 	env = append(env, "GORACE=halt_on_error=0 log_path="+racePrefix, "VERIF_TRACE="+tracePath)
@@ -212,17 +216,57 @@ func runBatch(bin, workDir, batchFile string, sch schedule, scratch string, tag 
 	of, _ := os.Create(outPath)
 	cmd.Stdout = of
 	cmd.Stderr = of
+	// number of lines the batch holds: once that many runs have ended (trace) nothing is left to do but the summary
+	nLines := 0
+	if bb, err := os.ReadFile(batchFile); err == nil {
+		for _, l := range strings.Split(string(bb), "\n") {
+			if strings.TrimSpace(l) != "" {
+				nLines++
+			}
+		}
+	}
 	t0 := time.Now()
-	err := cmd.Run()
+	err := cmd.Start()
+	if err == nil {
+		done := make(chan error, 1)
+		go func() { done <- cmd.Wait() }()
+		var allEnded time.Time
+		quit := false
+		tick := time.NewTicker(400 * time.Millisecond)
+	loop:
+		for {
+			select {
+			case err = <-done:
+				break loop
+			case <-tick.C:
+				if !quit && allEnded.IsZero() && nLines > 0 {
+					if tb, e := os.ReadFile(tracePath); e == nil && strings.Count(string(tb), "\"run_end\"") >= nLines {
+						allEnded = time.Now()
+					}
+				}
+				switch {
+				case !quit && !allEnded.IsZero() && time.Since(allEnded) > 30*time.Second:
+					// every run has returned long ago and the process is still there: ask the runtime for its goroutines
+					res.QuitAfterAllRunsEnded = true
+					quit = true
+					cmd.Process.Signal(syscall.SIGQUIT)
+				case !quit && time.Since(t0) > time.Duration(timeoutSec)*time.Second:
+					res.TimedOut = true
+					quit = true
+					cmd.Process.Signal(syscall.SIGQUIT)
+				case quit && time.Since(t0) > time.Duration(timeoutSec+40)*time.Second:
+					cmd.Process.Kill()
+				}
+			}
+		}
+		tick.Stop()
+	}
 	of.Close()
 	res.WallMS = time.Since(t0).Milliseconds()
 	if ee, ok := err.(*exec.ExitError); ok {
 		res.ExitCode = ee.ExitCode()
 	} else if err != nil {
 		res.ExitCode = -1
-	}
-	if res.ExitCode == 124 || res.ExitCode == 131 {
-		res.TimedOut = true
 	}
 	b, _ := os.ReadFile(outPath)
 	res.Stdout = string(b)
@@ -275,6 +319,51 @@ func runBatch(bin, workDir, batchFile string, sch schedule, scratch string, tag 
 		res.RaceReports = append(res.RaceReports, "fatal error: concurrent map access\n"+lastLines(res.Stdout, 12))
 	}
 	return res
+}
+
+// deadlocked judges a goroutine dump (SIGQUIT) on logical grounds: no goroutine of the program is running, runnable or in
+// a system call, every one of them waits on a channel, a select or a sync primitive, so none can ever make progress.
+// Returns the evidence (state and top frame of every goroutine) and whether the dump proves the deadlock.
+func deadlocked(dump string) (string, bool) {
+	i := strings.Index(dump, "SIGQUIT")
+	if i < 0 {
+		return "", false
+	}
+	blocks := strings.Split(dump[i:], "\n\n")
+	var ev []string
+	n := 0
+	for _, b := range blocks {
+		b = strings.TrimSpace(b)
+		if !strings.HasPrefix(b, "goroutine ") {
+			continue
+		}
+		lines := strings.Split(b, "\n")
+		head := lines[0]
+		k1, k2 := strings.Index(head, "["), strings.Index(head, "]")
+		if k1 < 0 || k2 < k1 {
+			continue
+		}
+		state := head[k1+1 : k2]
+		if c := strings.Index(state, ","); c >= 0 {
+			state = state[:c]
+		}
+		top := ""
+		if len(lines) > 1 {
+			top = strings.TrimSpace(lines[1])
+		}
+		// the runtime's own helpers: signal handling while the dump is written, the race detector's / GC's workers
+		if strings.Contains(b, "os/signal.") || strings.Contains(b, "runtime.gcBgMarkWorker") || strings.Contains(b, "runtime.bgsweep") || strings.Contains(b, "runtime.bgscavenge") || strings.Contains(b, "runtime.forcegchelper") || strings.Contains(b, "runtime.runfinq") || strings.Contains(b, "runtime.runFinalizers") || strings.Contains(b, "runtime.ensureSigM") {
+			continue
+		}
+		n++
+		ev = append(ev, fmt.Sprintf("[%s] %s", state, top))
+		switch state {
+		case "chan send", "chan receive", "select", "semacquire", "sync.WaitGroup.Wait", "sync.Cond.Wait", "sync.Mutex.Lock", "sync.RWMutex.Lock", "sync.RWMutex.RLock", "select (no cases)", "chan send (nil chan)", "chan receive (nil chan)":
+		default:
+			return strings.Join(ev, " | "), false // running, runnable, syscall, IO wait, sleep ...: progress is still possible
+		}
+	}
+	return strings.Join(ev, " | "), n > 0
 }
 
 // raceKey dedupes a race report by the pair of outermost hermes frames (line numbers stripped)
@@ -449,6 +538,11 @@ func soloReferences(bin, root string, lines []batchLine, scratch string, repeats
 				}
 				for _, rr := range r.RaceReports {
 					violate("data_race:"+raceKey(rr), "race detector report in a solo run: "+trunc(rr, 600))
+				}
+				if r.QuitAfterAllRunsEnded || r.TimedOut {
+					if ev, dead := deadlocked(r.Stdout); dead && rep == 0 {
+						violate("batch_does_not_terminate", fmt.Sprintf("line %s run alone: the run has returned but the process does not end; no goroutine can make progress: %s", lines[i].ID, trunc(ev, 600)))
+					}
 				}
 				mu.Unlock()
 			}
